@@ -566,12 +566,14 @@ def root_cause_sig(m):
     if m[0] == "bin":
         parent = "infix-hi" if BIN[m[1]][0] >= 1000 else "infix"
     offending = None
+    offending_slot = None
     for slot, child in _children_slots(m):
         if child[0] in ("atom", "var") and child[1] != "[]":
             continue
         try:
             if roundtrip(build(_replace(m, slot, ["atom", "z"]))) is None:
                 offending = child
+                offending_slot = slot
                 break
         except Exception:  # noqa
             continue
@@ -588,7 +590,13 @@ def root_cause_sig(m):
     cc = node_class(offending)
     if m[0] == "bin" and offending[0] == "bin" and BIN[m[1]][0] == BIN[offending[1]][0]:
         cc = "infix-same-priority"
-    return "rt:%s:%s/%s" % (root_cause(parent, cc), parent, cc)
+    cause = root_cause(parent, cc)
+    if cause == "other" and m[0] == "bin" and cc == "infix" and (offending_slot is None or offending_slot[0] == 3) \
+            and _leftmost_sign(offending):
+        # the right operand is printed without parentheses and its LEFTMOST leaf carries the sign that merges with
+        # the operator: a < ((-1) + a) prints 'a<-1+a'
+        cause = "sign-after-operator"
+    return "rt:%s:%s/%s" % (cause, parent, cc)
 
 
 def root_cause(parent, child):
